@@ -38,6 +38,12 @@ def source_bytes(kind, seq, pos):
     raise ValueError(kind)
 
 
+def truth_key(t_us):
+    """the -u -d %Y%m%dT%H%M%S%.9f rendering of 2000-01-01T00:00:00Z + t_us microseconds (all instants lie inside that day)"""
+    sec, us = divmod(t_us, 1000000)
+    return b"20000101T%02d%02d%02d.%06d000" % (sec // 3600, sec // 60 % 60, sec % 60, us)
+
+
 def nondecreasing(dom, maxlen, minlen=1):
     for k in range(minlen, maxlen + 1):
         for c in itertools.combinations_with_replacement(dom, k):
@@ -48,6 +54,7 @@ class Corpus:
     def __init__(self, work):
         self.work = work
         self.cache = {}
+        self.bad = []
 
     def source(self, kind, seq, pos):
         """returns (relpath, basename, per-source message list)"""
@@ -57,6 +64,15 @@ class Corpus:
             rel = os.path.join("p%d" % pos, "%s_%s" % (kind, "_".join(str(x) for x in seq)), name)
             common.write_file(os.path.join(self.work, rel), data)
             msgs, _tail, _r = oracle.single_source_messages(rel, self.work, binary=common.S4V)
+            # generator truth: the instants the single-source run attributes are the instants written (any order for record files)
+            want = sorted(truth_key(t) for t in seq)
+            got = sorted(k for k, _ in msgs)
+            if kind == "U":
+                # record files with exactly equal time values lose records: that is C08's known finding
+                # (equal-times-overwrite) and is judged there; here only the instants themselves are compared
+                want, got = sorted(set(want)), sorted(set(got))
+            if want != got:
+                self.bad.append((kind, list(seq), pos, want, got, rel))
             self.cache[key] = (rel, name, msgs, data)
         return self.cache[key]
 
@@ -117,6 +133,12 @@ def run(tier, seed, build=True):
             for pos, (k, s_) in enumerate(case):
                 need.add((k, tuple(s_), pos))
         list(common.pmap(lambda ks: corpus.source(ks[0], list(ks[1]), ks[2]), sorted(need)))
+
+        for kind, seq, pos, want, got, rel in corpus.bad:
+            res.violation({"part": "A0", "symptom": "single-source-instants-differ-from-generator", "kind": kind},
+                          "source %s (kind %s, instants %s us): a run on it alone attributes %s, written were %s" % (rel, kind, seq, got[:4], want[:4]),
+                          {"engine": "E-CLI", "args": list(oracle.DEC_ARGS) + ["-t", "+00:00", os.path.basename(rel)],
+                           "files": {os.path.basename(rel): common.b64(source_bytes(kind, seq, pos)[1])}})
 
         def run_case(item):
             case, extra, policy = item
@@ -292,7 +314,7 @@ def run(tier, seed, build=True):
         per2 = [oracle.single_source_messages(n, os.path.join(work, "D"), binary=common.S4V)[0] for n in order2]
         exp2 = oracle.expected_output(per2)
         for argv, sin in ((["a.wtmp", "-", "z.wtmp"], b"m1.wtmp\nm2.log\n"), (["-", "m2.log", "z.wtmp"], b"a.wtmp\nm1.wtmp\n"), (["a.wtmp", "m1.wtmp", "m2.log", "-"], b"z.wtmp\n")):
-            r = common.run_s4(list(oracle.DEC_ARGS) + ["-t", "+00:00"] + argv, cwd=os.path.join(work, "D"), stdin=sin)
+            r = common.run_s4(list(oracle.DEC_ARGS) + ["-t", "+00:00"] + argv, cwd=os.path.join(work, "D"), stdin=sin, binary=common.S4V)
             res.count()
             if r.out != exp2:
                 res.violation({"part": "D", "symptom": "stdin-order-differs", "dash_last": argv[-1] == "-"},
